@@ -20,6 +20,8 @@ import (
 	"github.com/tsawler/tabula/contentstream"
 	"github.com/tsawler/tabula/core"
 	"github.com/tsawler/tabula/font"
+	"github.com/tsawler/tabula/reader"
+	"github.com/tsawler/tabula/xlsx"
 )
 
 // ---------- the isolated worker
@@ -113,7 +115,28 @@ func c02Worker() {
 			time.Sleep(20 * time.Millisecond)
 			runtime.ReadMemStats(&ms)
 			if ms.HeapAlloc > limit || ms.StackInuse > 200<<20 {
-				say("MEMORY heap=%d stack=%d", ms.HeapAlloc, ms.StackInuse)
+				// where: the library function that occurs most often on the stacks
+				buf := make([]byte, 4<<20)
+				buf = buf[:runtime.Stack(buf, true)]
+				count := map[string]int{}
+				first := ""
+				for _, m := range c02Func.FindAllStringSubmatch(string(buf), -1) {
+					f := m[1]
+					if i := strings.LastIndex(f, "("); i > 0 {
+						f = f[:i]
+					}
+					if first == "" {
+						first = f
+					}
+					count[f]++
+				}
+				best := first
+				for f, n := range count {
+					if n > count[best]+2 {
+						best = f
+					}
+				}
+				say("MEMORY heap=%d stack=%d\t%s", ms.HeapAlloc, ms.StackInuse, best)
 				os.Exit(3)
 			}
 		}
@@ -127,6 +150,9 @@ func c02Worker() {
 		}
 		id, entry, path := parts[0], parts[1], parts[2]
 		say("BEGIN %s", id)
+		var before, after runtime.MemStats
+		runtime.GC()
+		runtime.ReadMemStats(&before)
 		func() {
 			defer func() {
 				if p := recover(); p != nil {
@@ -139,6 +165,10 @@ func c02Worker() {
 			}()
 			c02Call(entry, path)
 		}()
+		runtime.ReadMemStats(&after)
+		if after.TotalAlloc-before.TotalAlloc > limit {
+			say("MEMORY allocated=%d", after.TotalAlloc-before.TotalAlloc)
+		}
 		say("END %s", id)
 	}
 }
@@ -271,12 +301,17 @@ func c02RunJobs(jobs []c02Job, workers int, deadline time.Duration) []c02Result 
 							}
 						case strings.HasPrefix(l, "MEMORY"):
 							res.outcome, res.detail = "memory", l
+							if f := strings.SplitN(l, "\t", 2); len(f) == 2 {
+								res.detail, res.site = f[0], f[1]
+							}
 						case strings.HasPrefix(l, "DEAD "):
 							f := strings.SplitN(l[5:], "\t", 2)
 							if res.outcome == "ok" {
 								res.outcome = "abort"
 							}
-							res.site = f[0]
+							if res.site == "" {
+								res.site = f[0]
+							}
 							if len(f) == 2 && res.detail == "" {
 								res.detail = f[1]
 							}
@@ -554,6 +589,11 @@ func init() {
 			ndocs = 60
 			per = 30
 		}
+		nm := 150
+		if thorough {
+			nm = 1500
+		}
+		c02ModelCases(r, rng.Fork(7), nm)
 		var jobs []c02Job
 		id := 0
 		dist := map[string]int{}
@@ -613,6 +653,12 @@ func init() {
 				}
 			}
 		}
+		for _, f := range c02Directed(rng) {
+			addInput("pdf", "directed:"+f.name, ".pdf", f.data)
+		}
+		for _, f := range c02DirectedOther() {
+			addInput(f[0].(string), f[1].(string), f[2].(string), f[3].([]byte))
+		}
 		results := c02RunJobs(jobs, 12, 15*time.Second)
 		// the property on the implementation
 		outcomes := map[string]int{}
@@ -638,5 +684,605 @@ func init() {
 		}
 		r.Notes = append(r.Notes, fmt.Sprintf("outcomes: %v", outcomes))
 		_ = strconv.Itoa
+	}
+}
+
+// ---------- directed hostile constructs (the mechanisms the property names)
+
+// c02RawPDF: objects 1..n with the given bodies, a classic cross-reference table
+func c02RawPDF(bodies []string, trailer string) []byte {
+	var b bytes.Buffer
+	b.WriteString("%PDF-1.7\n")
+	offs := make([]int, len(bodies)+1)
+	for i, body := range bodies {
+		offs[i+1] = b.Len()
+		fmt.Fprintf(&b, "%d 0 obj\n%s\nendobj\n", i+1, body)
+	}
+	x := b.Len()
+	fmt.Fprintf(&b, "xref\n0 %d\n0000000000 65535 f \n", len(bodies)+1)
+	for i := 1; i <= len(bodies); i++ {
+		fmt.Fprintf(&b, "%010d 00000 n \n", offs[i])
+	}
+	fmt.Fprintf(&b, "trailer\n<< /Size %d /Root 1 0 R %s >>\nstartxref\n%d\n%%%%EOF\n", len(bodies)+1, strings.ReplaceAll(trailer, "$XREF", fmt.Sprint(x)), x)
+	return b.Bytes()
+}
+
+func c02StreamObj(dict string, data []byte) string {
+	return fmt.Sprintf("<< %s /Length %d >>\nstream\n%s\nendstream", dict, len(data), data)
+}
+
+func c02Directed(rng *RNG) []c02Fault {
+	var out []c02Fault
+	add := func(name string, data []byte) { out = append(out, c02Fault{name, data}) }
+	font := "<< /Type /Font /Subtype /Type1 /BaseFont /Helvetica >>"
+	page := func(contents, extra string) string {
+		return "<< /Type /Page /Parent 2 0 R /MediaBox [0 0 612 792] /Resources << /Font << /F1 4 0 R >> " + extra + " >> /Contents " + contents + " >>"
+	}
+	content := c02StreamObj("", []byte("BT /F1 12 Tf 72 700 Td (hello) Tj ET"))
+	base := func() []string {
+		return []string{"<< /Type /Catalog /Pages 2 0 R >>", "<< /Type /Pages /Kids [3 0 R] /Count 1 >>", page("5 0 R", ""), font, content}
+	}
+	// /Prev chains that never end
+	add("prev-self", c02RawPDF(base(), "/Prev $XREF"))
+	add("prev-garbage", c02RawPDF(base(), "/Prev 7"))
+	add("prev-negative", c02RawPDF(base(), "/Prev -1"))
+	add("prev-beyond", c02RawPDF(base(), "/Prev 99999999"))
+	{
+		// two sections that name each other
+		a := c02RawPDF(base(), "/Prev 0000000000")
+		s := string(a)
+		i := strings.LastIndex(s, "xref\n")
+		second := fmt.Sprintf("xref\n0 1\n0000000000 65535 f \ntrailer\n<< /Size 6 /Root 1 0 R /Prev %d >>\nstartxref\n%d\n%%%%EOF\n", i, len(a))
+		// the first names the second
+		s = strings.Replace(s, "/Prev 0000000000", fmt.Sprintf("/Prev %010d", len(a)), 1)
+		add("prev-two-cycle", []byte(s+second))
+	}
+	// page trees that loop or multiply
+	{
+		o := base()
+		o[1] = "<< /Type /Pages /Kids [2 0 R] /Count 1 >>"
+		add("kids-self", c02RawPDF(o, ""))
+		o = base()
+		o[2] = "<< /Type /Pages /Parent 2 0 R /Kids [2 0 R 3 0 R] /Count 1 >>"
+		add("kids-ancestor", c02RawPDF(o, ""))
+		// a shared-subtree bomb: 12 levels, each node lists the next level ten times
+		o = []string{"<< /Type /Catalog /Pages 2 0 R >>"}
+		levels := 12
+		for l := 0; l < levels; l++ {
+			next := fmt.Sprintf("%d 0 R ", l+3)
+			o = append(o, "<< /Type /Pages /Kids ["+strings.Repeat(next, 10)+"] /Count 10 >>")
+		}
+		o = append(o, "<< /Type /Page /MediaBox [0 0 10 10] >>")
+		add("kids-shared-subtree-bomb", c02RawPDF(o, ""))
+		// one page listed very often is fine for the reader but must stay linear
+		o = base()
+		o[1] = "<< /Type /Pages /Kids [" + strings.Repeat("3 0 R ", 20000) + "] /Count 20000 >>"
+		add("kids-one-page-20000-times", c02RawPDF(o, ""))
+		// deep chain of distinct nodes
+		o = []string{"<< /Type /Catalog /Pages 2 0 R >>"}
+		for l := 0; l < 5000; l++ {
+			o = append(o, fmt.Sprintf("<< /Type /Pages /Kids [%d 0 R] /Count 1 >>", l+3))
+		}
+		o = append(o, "<< /Type /Page /MediaBox [0 0 10 10] >>")
+		add("kids-chain-5000", c02RawPDF(o, ""))
+	}
+	// counts that are not there
+	for _, n := range []string{"2147483647", "9223372036854775807", "-5", "1000000000"} {
+		o := base()
+		o[1] = "<< /Type /Pages /Kids [3 0 R] /Count " + n + " >>"
+		add("count-"+n, c02RawPDF(o, ""))
+	}
+	// lengths
+	for _, n := range []string{"2147483647", "9223372036854775807", "-1", "5 0 R", "6 0 R"} {
+		o := base()
+		o[4] = strings.Replace(content, "/Length 36", "/Length "+n, 1)
+		o = append(o, "7 0 R", "6 0 R")
+		add("length-"+strings.ReplaceAll(n, " ", ""), c02RawPDF(o, ""))
+	}
+	// form XObjects that invoke themselves
+	{
+		o := base()
+		form := c02StreamObj("/Type /XObject /Subtype /Form /BBox [0 0 10 10] /Resources << /XObject << /X 6 0 R >> /Font << /F1 4 0 R >> >>", []byte(strings.Repeat("/X Do ", 12)+"BT /F1 9 Tf (x) Tj ET"))
+		o[2] = page("5 0 R", "/XObject << /X 6 0 R >>")
+		o[4] = c02StreamObj("", []byte("/X Do"))
+		o = append(o, form)
+		add("xobject-self-12-fold", c02RawPDF(o, ""))
+	}
+	// predictors and filter parameters
+	for _, parms := range []string{
+		"/Predictor 12 /Columns 0", "/Predictor 12 /Columns 2147483647", "/Predictor 12 /Columns -4", "/Predictor 2 /Columns 0",
+		"/Predictor 2 /Colors 2147483647 /Columns 2147483647", "/Predictor 15 /Colors 0 /BitsPerComponent 0 /Columns 1",
+		"/Predictor 12 /Colors 9223372036854775807 /BitsPerComponent 16 /Columns 9223372036854775807", "/Predictor 2 /BitsPerComponent 3 /Columns 5",
+	} {
+		o := base()
+		o[4] = c02StreamObj("/Filter /FlateDecode /DecodeParms << "+parms+" >>", deflate([]byte("\x00BT /F1 12 Tf 72 700 Td (hello) Tj ET")))
+		add("predictor:"+parms, c02RawPDF(o, ""))
+	}
+	// highly compressible data: 16 MiB of zeros (decompression bombs proper are not in the catalogue)
+	{
+		zeros := make([]byte, 1<<20)
+		var inner bytes.Buffer
+		for i := 0; i < 16; i++ {
+			inner.Write(zeros)
+		}
+		d1 := deflate(inner.Bytes())
+		o := base()
+		o[4] = c02StreamObj("/Filter /FlateDecode", d1)
+		add("flate-16MiB-of-zeros", c02RawPDF(o, ""))
+	}
+	// ToUnicode programs
+	for name, prog := range map[string]string{
+		"bfrange-whole-space":    "1 begincodespacerange <00000000> <FFFFFFFF> endcodespacerange 1 beginbfrange <00000000> <FFFFFFFF> <0041> endbfrange",
+		"bfrange-backwards":      "1 begincodespacerange <00> <FF> endcodespacerange 1 beginbfrange <FF> <00> <0041> endbfrange",
+		"bfrange-2-byte-full":    "1 begincodespacerange <0000> <FFFF> endcodespacerange 100 beginbfrange " + strings.Repeat("<0000> <FFFF> <0041>\n", 100) + " endbfrange",
+		"bfchar-count-lies":      "2147483647 beginbfchar <01> <0041> endbfchar",
+		"unterminated":           "1 beginbfrange <01> <05> [<0041> <0042>",
+		"codespace-16-byte-code": "1 begincodespacerange <00000000000000000000000000000000> <FFFFFFFFFFFFFFFFFFFFFFFFFFFFFFFF> endcodespacerange 1 beginbfchar <00000000000000000000000000000001> <0041> endbfchar",
+	} {
+		o := base()
+		o[3] = "<< /Type /Font /Subtype /Type1 /BaseFont /Helvetica /ToUnicode 6 0 R >>"
+		o = append(o, c02StreamObj("", []byte(prog)))
+		add("cmap:"+name, c02RawPDF(o, ""))
+	}
+	// fonts
+	for name, f := range map[string]string{
+		"widths-firstchar-negative": "<< /Type /Font /Subtype /Type1 /BaseFont /Helvetica /FirstChar -2147483648 /LastChar 2147483647 /Widths [1 2 3] >>",
+		"descendant-self":           "<< /Type /Font /Subtype /Type0 /BaseFont /X /Encoding /Identity-H /DescendantFonts [4 0 R] >>",
+		"descendant-empty":          "<< /Type /Font /Subtype /Type0 /BaseFont /X /Encoding /Identity-H /DescendantFonts [] >>",
+		"encoding-self":             "<< /Type /Font /Subtype /Type1 /BaseFont /X /Encoding 4 0 R >>",
+		"differences-huge-code":     "<< /Type /Font /Subtype /Type1 /BaseFont /X /Encoding << /Type /Encoding /Differences [2147483647 /a /b -5 /c 9223372036854775807 /d] >> >>",
+		"w-array-huge":              "<< /Type /Font /Subtype /Type0 /BaseFont /X /Encoding /Identity-H /DescendantFonts [<< /Type /Font /Subtype /CIDFontType2 /BaseFont /X /CIDSystemInfo << /Registry (Adobe) /Ordering (Identity) /Supplement 0 >> /W [0 2147483647 500 -10 [1 2 3] 5 1 9] >>] >>",
+	} {
+		o := base()
+		o[3] = f
+		add("font:"+name, c02RawPDF(o, ""))
+	}
+	// resources that contain themselves
+	{
+		o := base()
+		o[2] = "<< /Type /Page /Parent 2 0 R /MediaBox [0 0 612 792] /Resources 6 0 R /Contents 5 0 R >>"
+		o = append(o, "<< /Font << /F1 4 0 R >> /XObject << /R 6 0 R >> /Self 6 0 R >>")
+		add("resources-self", c02RawPDF(o, ""))
+	}
+	// cross-reference streams
+	for name, d := range map[string]string{
+		"w-zero":         "/W [0 0 0] /Index [0 2147483647]",
+		"w-huge":         "/W [1 2147483647 1]",
+		"w-negative":     "/W [1 -3 1]",
+		"index-odd":      "/W [1 2 1] /Index [0 1 2]",
+		"index-negative": "/W [1 2 1] /Index [-5 3]",
+		"index-huge":     "/W [1 2 1] /Index [0 9223372036854775807]",
+		"size-huge":      "/W [1 2 1] /Size 9223372036854775807",
+	} {
+		var b bytes.Buffer
+		b.WriteString("%PDF-1.7\n1 0 obj\n<< /Type /Catalog /Pages 2 0 R >>\nendobj\n2 0 obj\n<< /Type /Pages /Kids [] /Count 0 >>\nendobj\n")
+		x := b.Len()
+		dict := "/Type /XRef /Root 1 0 R " + d
+		if !strings.Contains(d, "/Size") {
+			dict += " /Size 4"
+		}
+		fmt.Fprintf(&b, "3 0 obj\n%s\nendobj\nstartxref\n%d\n%%%%EOF\n", c02StreamObj(dict, []byte{0, 0, 0, 255, 1, 0, 9, 0, 1, 0, 60, 0, 1, 0, 120, 0}), x)
+		add("xrefstream:"+name, b.Bytes())
+	}
+	// object streams
+	for name, d := range map[string]string{
+		"n-huge":         "/N 2147483647 /First 10",
+		"first-huge":     "/N 1 /First 2147483647",
+		"first-negative": "/N 1 /First -1",
+		"extends-self":   "/N 1 /First 4 /Extends 3 0 R",
+	} {
+		var b bytes.Buffer
+		b.WriteString("%PDF-1.7\n1 0 obj\n<< /Type /Catalog /Pages 2 0 R >>\nendobj\n")
+		so := b.Len()
+		fmt.Fprintf(&b, "3 0 obj\n%s\nendobj\n", c02StreamObj("/Type /ObjStm "+d, []byte("2 0 << /Type /Pages /Kids [] /Count 0 >>")))
+		x := b.Len()
+		var rows []byte
+		rows = append(rows, 0, 0, 0, 255, 1, 0, 9, 0, 2, 0, 3, 0, 1, byte(so>>8), byte(so), 0, 1, byte(x>>8), byte(x), 0)
+		fmt.Fprintf(&b, "4 0 obj\n%s\nendobj\nstartxref\n%d\n%%%%EOF\n", c02StreamObj("/Type /XRef /Root 1 0 R /Size 5 /W [1 2 1]", rows), x)
+		add("objstm:"+name, b.Bytes())
+	}
+	return out
+}
+
+// directed hostile bodies for the ZIP formats and HTML: (format, name, extension, bytes)
+func c02DirectedOther() [][4]interface{} {
+	var out [][4]interface{}
+	add := func(format, name, ext string, data []byte) {
+		out = append(out, [4]interface{}{format, name, ext, data})
+	}
+	replaceMember := func(ms []zipMember, name string, data string) []zipMember {
+		c := make([]zipMember, len(ms))
+		copy(c, ms)
+		for i := range c {
+			if c[i].Name == name {
+				c[i].Data = []byte(data)
+			}
+		}
+		return c
+	}
+	// ODT
+	odtHead := `<?xml version="1.0" encoding="UTF-8"?><office:document-content xmlns:office="urn:oasis:names:tc:opendocument:xmlns:office:1.0" xmlns:text="urn:oasis:names:tc:opendocument:xmlns:text:1.0" xmlns:table="urn:oasis:names:tc:opendocument:xmlns:table:1.0" office:version="1.2"><office:body><office:text>`
+	odtTail := `</office:text></office:body></office:document-content>`
+	for name, body := range map[string]string{
+		"spaces-repeated":      `<text:p>a<text:s text:c="2147483647"/>b<text:s text:c="9223372036854775807"/><text:s text:c="-5"/></text:p>`,
+		"columns-repeated":     `<table:table><table:table-column table:number-columns-repeated="2147483647"/><table:table-row><table:table-cell table:number-columns-repeated="2147483647"><text:p>x</text:p></table:table-cell></table:table-row></table:table>`,
+		"rows-repeated":        `<table:table><table:table-row table:number-rows-repeated="2147483647"><table:table-cell><text:p>x</text:p></table:table-cell></table:table-row></table:table>`,
+		"spans":                `<table:table><table:table-row><table:table-cell table:number-columns-spanned="2147483647" table:number-rows-spanned="2147483647"><text:p>x</text:p></table:table-cell><table:table-cell><text:p>y</text:p></table:table-cell></table:table-row><table:table-row><table:table-cell><text:p>z</text:p></table:table-cell></table:table-row></table:table>`,
+		"outline-level":        `<text:h text:outline-level="2147483647">h</text:h><text:h text:outline-level="-3">h</text:h><text:h text:outline-level="x">h</text:h>`,
+		"lists-nested-3000":    strings.Repeat(`<text:list><text:list-item>`, 3000) + `<text:p>deep</text:p>` + strings.Repeat(`</text:list-item></text:list>`, 3000),
+		"tables-nested-2000":   strings.Repeat(`<table:table><table:table-row><table:table-cell>`, 2000) + `<text:p>deep</text:p>` + strings.Repeat(`</table:table-cell></table:table-row></table:table>`, 2000),
+		"sections-nested-9000": strings.Repeat(`<text:section>`, 9000) + `<text:p>deep</text:p>` + strings.Repeat(`</text:section>`, 9000),
+	} {
+		add("odt", "directed:"+name, ".odt", writeZip(replaceMember(mkODTSimple([]string{"x"}), "content.xml", odtHead+body+odtTail)))
+	}
+	// DOCX
+	docHead := `<?xml version="1.0" encoding="UTF-8" standalone="yes"?><w:document xmlns:w="http://schemas.openxmlformats.org/wordprocessingml/2006/main"><w:body>`
+	docTail := `</w:body></w:document>`
+	cell := func(props, text string) string {
+		return `<w:tc><w:tcPr>` + props + `</w:tcPr><w:p><w:r><w:t>` + text + `</w:t></w:r></w:p></w:tc>`
+	}
+	for name, body := range map[string]string{
+		"gridspan":           `<w:tbl><w:tr>` + cell(`<w:gridSpan w:val="2147483647"/>`, "a") + cell(`<w:gridSpan w:val="-7"/>`, "b") + cell(`<w:gridSpan w:val="9223372036854775807"/>`, "c") + `</w:tr><w:tr>` + cell("", "d") + `</w:tr></w:tbl>`,
+		"vmerge-without-top": `<w:tbl><w:tr>` + cell(`<w:vMerge/>`, "a") + `</w:tr><w:tr>` + cell(`<w:vMerge/>`, "b") + cell(`<w:vMerge w:val="restart"/>`, "c") + `</w:tr></w:tbl>`,
+		"list-levels":        `<w:p><w:pPr><w:numPr><w:ilvl w:val="2147483647"/><w:numId w:val="-1"/></w:numPr></w:pPr><w:r><w:t>x</w:t></w:r></w:p><w:p><w:pPr><w:numPr><w:ilvl w:val="-9"/><w:numId w:val="9223372036854775807"/></w:numPr></w:pPr><w:r><w:t>y</w:t></w:r></w:p>`,
+		"heading-levels":     `<w:p><w:pPr><w:pStyle w:val="Heading99999999999999999999"/></w:pPr><w:r><w:t>x</w:t></w:r></w:p><w:p><w:pPr><w:pStyle w:val="Heading-3"/><w:outlineLvl w:val="2147483647"/></w:pPr><w:r><w:t>y</w:t></w:r></w:p>`,
+		"tables-nested-2000": strings.Repeat(`<w:tbl><w:tr><w:tc>`, 2000) + `<w:p><w:r><w:t>deep</w:t></w:r></w:p>` + strings.Repeat(`</w:tc></w:tr></w:tbl>`, 2000),
+		"runs-nested-9000":   `<w:p>` + strings.Repeat(`<w:smartTag>`, 9000) + `<w:r><w:t>deep</w:t></w:r>` + strings.Repeat(`</w:smartTag>`, 9000) + `</w:p>`,
+		"tabs-and-breaks":    `<w:p><w:r>` + strings.Repeat(`<w:tab/><w:br/><w:cr/>`, 50000) + `</w:r></w:p>`,
+	} {
+		add("docx", "directed:"+name, ".docx", writeZip(replaceMember(mkDOCXSimple([]string{"x"}), "word/document.xml", docHead+body+docTail)))
+	}
+	// XLSX
+	sheet := func(body string) string {
+		return `<?xml version="1.0" encoding="UTF-8" standalone="yes"?><worksheet xmlns="http://schemas.openxmlformats.org/spreadsheetml/2006/main">` + body + `</worksheet>`
+	}
+	xl := mkXLSXSimple([]string{"x"})
+	sheetName := ""
+	for _, m := range xl {
+		if strings.Contains(m.Name, "worksheets/sheet") {
+			sheetName = m.Name
+		}
+	}
+	for name, body := range map[string]string{
+		"far-cell":        `<sheetData><row r="1048576"><c r="XFD1048576" t="inlineStr"><is><t>x</t></is></c></row></sheetData>`,
+		"row-number":      `<sheetData><row r="2147483647"><c r="A2147483647" t="inlineStr"><is><t>x</t></is></c></row><row r="-4"><c r="A-4"><v>1</v></c></row></sheetData>`,
+		"column-letters":  `<sheetData><row r="1"><c r="ZZZZZZZZZZZZZZZZZZZZ1" t="inlineStr"><is><t>x</t></is></c><c r="1A"><v>2</v></c><c r=""><v>3</v></c></row></sheetData>`,
+		"shared-index":    `<sheetData><row r="1"><c r="A1" t="s"><v>2147483647</v></c><c r="B1" t="s"><v>-1</v></c><c r="C1" t="s"><v>x</v></c></row></sheetData>`,
+		"style-index":     `<sheetData><row r="1"><c r="A1" s="2147483647"><v>1</v></c><c r="B1" s="-1"><v>2</v></c></row></sheetData>`,
+		"merge-whole":     `<sheetData><row r="1"><c r="A1"><v>1</v></c></row></sheetData><mergeCells><mergeCell ref="A1:XFD1048576"/><mergeCell ref="ZZZ9999999999:A1"/><mergeCell ref=":"/></mergeCells>`,
+		"many-rows-dense": `<sheetData>` + strings.Repeat(`<row r="1"><c r="A1"><v>1</v></c></row>`, 50000) + `</sheetData>`,
+	} {
+		add("xlsx", "directed:"+name, ".xlsx", writeZip(replaceMember(xl, sheetName, sheet(body))))
+	}
+	// EPUB: a navigation document and NCX nested deep, spine entries that do not exist
+	{
+		ep := mkEPUBSimple([]string{"chapter one", "chapter two"})
+		for i := range ep {
+			if strings.HasSuffix(ep[i].Name, ".opf") {
+				s := string(ep[i].Data)
+				s = strings.Replace(s, "</spine>", strings.Repeat(`<itemref idref="nothing"/>`, 20000)+"</spine>", 1)
+				c := make([]zipMember, len(ep))
+				copy(c, ep)
+				c[i].Data = []byte(s)
+				add("epub", "directed:spine-dangling-20000", ".epub", writeZip(c))
+				s2 := strings.Replace(string(ep[i].Data), "</manifest>", `<item id="ncx" href="toc.ncx" media-type="application/x-dtbncx+xml"/></manifest>`, 1)
+				c2 := make([]zipMember, len(ep))
+				copy(c2, ep)
+				c2[i].Data = []byte(s2)
+				dir := ep[i].Name[:strings.LastIndex(ep[i].Name, "/")+1]
+				ncx := `<?xml version="1.0"?><ncx xmlns="http://www.daisy.org/z3986/2005/ncx/"><docTitle><text>t</text></docTitle><navMap>` + strings.Repeat(`<navPoint><navLabel><text>p</text></navLabel><content src="c1.xhtml"/>`, 9000) + strings.Repeat(`</navPoint>`, 9000) + `</navMap></ncx>`
+				c2 = append(c2, zipMember{Name: dir + "toc.ncx", Data: []byte(ncx)})
+				add("epub", "directed:ncx-nested-9000", ".epub", writeZip(c2))
+			}
+		}
+	}
+	// HTML
+	for name, body := range map[string]string{
+		"spans":                `<table><tr><td colspan="2147483647" rowspan="2147483647">a</td><td colspan="-4" rowspan="0">b</td></tr><tr><td rowspan="65535" colspan="1000">c</td></tr></table>`,
+		"nested-500":           strings.Repeat("<div><ul><li>", 160) + "x" + strings.Repeat("</li></ul></div>", 160),
+		"nested-tables-170":    strings.Repeat("<table><tr><td>", 170) + "x" + strings.Repeat("</td></tr></table>", 170),
+		"unclosed-p-100000":    strings.Repeat("<p>x", 100000),
+		"unclosed-li-100000":   "<ul>" + strings.Repeat("<li>x", 100000) + "</ul>",
+		"formatting-100000":    strings.Repeat("<b><i>", 300) + strings.Repeat("<p>x</p>", 2000),
+		"stray-end-tags":       strings.Repeat("</div></p></table></li>", 50000) + "<p>x</p>",
+		"attributes-huge":      "<p " + strings.Repeat(`a="b" `, 100000) + ">x</p>",
+		"ol-start":             `<ol start="2147483647"><li>a</li><li>b</li></ol><ol start="-9223372036854775808"><li>c</li></ol>`,
+		"table-wide-and-short": "<table><tr>" + strings.Repeat("<td>x</td>", 20000) + "</tr><tr><td>y</td></tr></table>",
+	} {
+		add("html", "directed:"+name, ".html", []byte("<html><body>"+body+"</body></html>"))
+	}
+	return out
+}
+
+// ---------- correspondence with the model: walks and size checks
+
+func c02ModelCases(r *Run, rng *RNG, n int) {
+	errV, okV := L(I(1)), func(k int) V { return L(I(0), I(k)) }
+	guard := func(f func() error) (res V) {
+		defer func() {
+			if p := recover(); p != nil {
+				res = RPanic()
+			}
+		}()
+		if err := f(); err != nil {
+			return errV
+		}
+		return L(I(0))
+	}
+	// (0) page trees as arbitrary reference graphs
+	for i := 0; i < n; i++ {
+		nobj := rng.Range(2, 12)
+		bodies := []string{"<< /Type /Catalog /Pages 2 0 R >>"}
+		objs := []V{L(I(1), L(I(2)))}
+		// mostly trees (every kid a later object, referenced once), with a stray reference now and then
+		treeMode := rng.Chance(2, 3)
+		used := map[int]bool{}
+		for k := 2; k <= nobj+1; k++ {
+			kind := rng.Intn(5)
+			if treeMode {
+				kind = []int{0, 2, 2, 3, 1}[rng.Intn(5)]
+				if rng.Chance(1, 20) {
+					kind = 4
+				}
+			}
+			if k == 2 || kind <= 1 {
+				var kids []string
+				var kv []V
+				for c := rng.Range(0, 4); c > 0; c-- {
+					t := rng.Range(0, nobj+3)
+					if rng.Chance(2, 3) {
+						t = rng.Range(2, nobj+1)
+					}
+					if treeMode && !rng.Chance(1, 12) {
+						t = 0
+						for cand := k + 1; cand <= nobj+1; cand++ {
+							if !used[cand] && rng.Chance(1, 2) {
+								t = cand
+								break
+							}
+						}
+						if t == 0 {
+							continue
+						}
+						used[t] = true
+					}
+					kids = append(kids, fmt.Sprintf("%d 0 R", t))
+					kv = append(kv, I(t))
+				}
+				bodies = append(bodies, fmt.Sprintf("<< /Type /Pages /Kids [%s] /Count %d >>", strings.Join(kids, " "), rng.Intn(5)))
+				objs = append(objs, L(I(k), L(I(0), L(kv...))))
+			} else if kind <= 3 {
+				bodies = append(bodies, "<< /Type /Page /MediaBox [0 0 10 10] >>")
+				objs = append(objs, L(I(k), L(I(1))))
+			} else {
+				bodies = append(bodies, []string{"<< /Type /Font >>", "42", "<< /Kids [2 0 R] >>", "[2 0 R]"}[rng.Intn(4)])
+				objs = append(objs, L(I(k), L(I(2))))
+			}
+		}
+		path := tmpFile(r, ".pdf", c02RawPDF(bodies, ""))
+		var got V
+		done := make(chan V, 1)
+		go func() {
+			defer func() {
+				if p := recover(); p != nil {
+					done <- RPanic()
+				}
+			}()
+			rd, err := reader.Open(path)
+			if err != nil {
+				done <- errV
+				return
+			}
+			defer rd.Close()
+			c, err := rd.PageCount()
+			if err != nil {
+				done <- errV
+				return
+			}
+			done <- okV(c)
+		}()
+		select {
+		case got = <-done:
+		case <-time.After(10 * time.Second):
+			got = RDiverge()
+		}
+		r.Case(L(I(0), L(objs...), I(2)), got, "page-tree-graph", true)
+	}
+	// (1) /Prev chains
+	for i := 0; i < n; i++ {
+		k := rng.Range(1, 5)
+		base := c02RawPDF([]string{"<< /Type /Catalog /Pages 2 0 R >>", "<< /Type /Pages /Kids [] /Count 0 >>"}, "")
+		body := string(base[:strings.LastIndex(string(base), "xref\n")])
+		// section offsets are known before the Prev values are chosen: fixed-width numbers
+		secLen := func(main bool) int {
+			if main {
+				return len(fmt.Sprintf("xref\n0 3\n0000000000 65535 f \n%010d 00000 n \n%010d 00000 n \ntrailer\n<< /Size 3 /Root 1 0 R /Prev %010d >>\n", 0, 0, 0))
+			}
+			return len(fmt.Sprintf("xref\n0 1\n0000000000 65535 f \ntrailer\n<< /Size 3 /Root 1 0 R /Prev %010d >>\n", 0))
+		}
+		offs := make([]int, k)
+		pos := len(body)
+		for s := 0; s < k; s++ {
+			offs[s] = pos
+			pos += secLen(s == k-1)
+		}
+		o1 := strings.Index(body, "1 0 obj")
+		o2 := strings.Index(body, "2 0 obj")
+		var file strings.Builder
+		file.WriteString(body)
+		var secs []V
+		for s := 0; s < k; s++ {
+			prev := -1
+			switch rng.Intn(5) {
+			case 0:
+			case 1:
+				prev = offs[rng.Intn(k)]
+			case 2:
+				if s > 0 {
+					prev = offs[s-1]
+				}
+			case 3:
+				prev = 3 // not a section
+			case 4:
+				if s > 0 {
+					prev = offs[rng.Intn(s)]
+				}
+			}
+			pv := "                " // as wide as a /Prev entry
+			pm := L()
+			if prev >= 0 {
+				pv = fmt.Sprintf("/Prev %010d", prev)
+				pm = L(I(prev))
+			}
+			if s == k-1 {
+				fmt.Fprintf(&file, "xref\n0 3\n0000000000 65535 f \n%010d 00000 n \n%010d 00000 n \ntrailer\n<< /Size 3 /Root 1 0 R %s >>\n", o1, o2, pv)
+			} else {
+				fmt.Fprintf(&file, "xref\n0 1\n0000000000 65535 f \ntrailer\n<< /Size 3 /Root 1 0 R %s >>\n", pv)
+			}
+			if prev != 3 || true {
+				secs = append(secs, L(I(offs[s]), pm))
+			}
+		}
+		fmt.Fprintf(&file, "startxref\n%d\n%%%%EOF\n", offs[k-1])
+		path := tmpFile(r, ".pdf", []byte(file.String()))
+		var got V
+		done := make(chan V, 1)
+		go func() {
+			defer func() {
+				if p := recover(); p != nil {
+					done <- RPanic()
+				}
+			}()
+			f, err := os.Open(path)
+			if err != nil {
+				done <- errV
+				return
+			}
+			defer f.Close()
+			tabs, err := core.NewXRefParser(f).ParseAllXRefs()
+			if err != nil {
+				done <- errV
+				return
+			}
+			done <- okV(len(tabs))
+		}()
+		select {
+		case got = <-done:
+		case <-time.After(10 * time.Second):
+			got = RDiverge()
+		}
+		r.Case(L(I(1), L(secs...), I(offs[k-1])), got, "prev-chain", true)
+	}
+	// (2) cross-reference stream sizes
+	ws := []int{-1, 0, 0, 1, 1, 2, 3, 4, 8, 9, 2147483647}
+	for i := 0; i < n; i++ {
+		w := [3]int{ws[rng.Intn(len(ws))], ws[rng.Intn(len(ws))], ws[rng.Intn(len(ws))]}
+		if rng.Chance(2, 3) {
+			w = [3]int{rng.Intn(3), rng.Range(0, 4), rng.Intn(3)}
+		}
+		dlen := rng.Intn(64)
+		row := w[0] + w[1] + w[2]
+		var idx []int
+		left := dlen
+		for s := rng.Range(0, 3); s > 0; s-- {
+			first := []int{0, 5, 100, -1}[rng.Intn(4)]
+			fit := 0
+			if row > 0 && row < 1000 {
+				fit = left / row
+			}
+			count := []int{0, 1, fit, fit, fit + 1, 2147483647, -1}[rng.Intn(7)]
+			idx = append(idx, first, count)
+			if count > 0 && row > 0 && row < 1000 && count <= fit {
+				left -= count * row
+			}
+		}
+		if rng.Chance(1, 8) {
+			idx = append(idx, 7)
+		}
+		var is []string
+		var iv []V
+		for _, x := range idx {
+			is = append(is, fmt.Sprint(x))
+			iv = append(iv, I(x))
+		}
+		var b bytes.Buffer
+		b.WriteString("%PDF-1.7\n")
+		x := b.Len()
+		fmt.Fprintf(&b, "1 0 obj\n%s\nendobj\nstartxref\n%d\n%%%%EOF\n", c02StreamObj(fmt.Sprintf("/Type /XRef /Size 200 /W [%d %d %d] /Index [%s]", w[0], w[1], w[2], strings.Join(is, " ")), make([]byte, dlen)), x)
+		path := tmpFile(r, ".pdf", b.Bytes())
+		got := guard(func() error {
+			f, err := os.Open(path)
+			if err != nil {
+				return err
+			}
+			defer f.Close()
+			_, err = core.NewXRefParser(f).ParseXRefFromEOF()
+			return err
+		})
+		r.Case(L(I(2), I(w[0]), I(w[1]), I(w[2]), L(iv...), I(dlen)), got, "xref-stream-sizes", true)
+	}
+	// (3) object stream headers
+	for i := 0; i < n; i++ {
+		header := strings.Repeat("1 0 ", rng.Intn(6)) + strings.Repeat(" ", rng.Intn(4))
+		body := "<< /A 1 >>"
+		decoded := header + body
+		first := []int{len(header), len(header), 0, len(decoded), len(decoded) + 1, -1, 2147483647}[rng.Intn(7)]
+		pairs := 0
+		if first >= 0 {
+			pairs = first/4 + 1
+		}
+		nn := []int{0, 1, pairs - 1, pairs, pairs + 1, 2147483647, -1}[rng.Intn(7)]
+		st := &core.Stream{Dict: core.Dict{"Type": core.Name("ObjStm"), "N": core.Int(nn), "First": core.Int(first)}, Data: []byte(decoded)}
+		var got V
+		func() {
+			defer func() {
+				if p := recover(); p != nil {
+					got = RPanic()
+				}
+			}()
+			os, err := core.NewObjectStream(st)
+			if err != nil {
+				got = errV
+				return
+			}
+			_, _, err = os.GetObjectByIndex(0)
+			// only the size checks are compared: other errors (a header with too few pairs, an index out of range) are not theirs
+			if err != nil && (strings.Contains(err.Error(), "exceeds what its header") || strings.Contains(err.Error(), "First offset")) {
+				got = errV
+				return
+			}
+			got = L(I(0))
+		}()
+		r.Case(L(I(3), I(nn), I(first), I(len(decoded))), got, "object-stream-header", true)
+	}
+	// (4) worksheet grids
+	grids := [][3]int{{1, 0, 1}, {1048576, 0, 1}, {1048577, 0, 1}, {1, 16383, 1}, {1, 16384, 1}, {1025, 1023, 1}, {1024, 1023, 1}, {2000, 600, 2}, {2000, 600, 4688}, {2000, 600, 4687}, {2000, 600, 4690}, {1048576, 16383, 3}, {70000, 14, 1}, {69905, 14, 1}, {69906, 14, 1}}
+	for _, g := range grids {
+		maxRow, maxCol, populated := g[0], g[1], g[2]
+		t := "x"
+		var rows []c17Row
+		var first []c17Cell
+		for c := 0; c < populated-1; c++ {
+			first = append(first, c17Cell{ref: refOf(c%(maxCol+1), 0), t: "inlineStr", is: &t})
+		}
+		if maxRow == 1 {
+			first = append(first, c17Cell{ref: refOf(maxCol, 0), t: "inlineStr", is: &t})
+			rows = append(rows, c17Row{r: 1, cells: first})
+		} else {
+			if len(first) > 0 {
+				rows = append(rows, c17Row{r: 1, cells: first})
+			}
+			rows = append(rows, c17Row{r: maxRow, cells: []c17Cell{{ref: refOf(maxCol, maxRow-1), t: "inlineStr", is: &t}}})
+		}
+		path := tmpFile(r, ".xlsx", writeZip(c17WorkbookMembers([]c17Sheet{{name: "S", rows: rows}}, nil)))
+		got := guard(func() error {
+			rd, err := xlsx.Open(path)
+			if err != nil {
+				return err
+			}
+			rd.Close()
+			return nil
+		})
+		r.Case(L(I(4), I(maxRow), I(maxCol), I(populated)), got, "worksheet-grid", true)
 	}
 }
